@@ -27,6 +27,8 @@ func mkChooser(s Sched) vrt.Chooser {
 			span = 400
 		}
 		return NewPCT(s.Seed, s.Depth, span)
+	case "pctl":
+		return NewPCTL(s.Seed, s.Devs)
 	case "rw":
 		den, cden := s.Den, s.ClockDen
 		if den < 2 {
